@@ -23,6 +23,12 @@ STRENGTHENED = {
  "C04-r2m1": "round 2b, first run: caught by C06 (c06_subst_ids) only; the substitution clause belongs to C04 as much as to C06, so C04 now runs c06_subst_ids too.",
  "C04-r2m2": "round 2b, first run: missed (wrong arm in the trait's DEFAULT apply_unique, which neither BDD nor BCDD uses). Added c04_defaults: newtype functions with derived Function/BooleanFunction and a hand-written BooleanFunctionQuant holding only the required methods, so the defaults of oxidd-core run; 8 operators x 8 variable sets x 3 quantifiers x random operand pairs x 6 orders.",
  "C09-r2m1": "round 2b, first run: missed (results of the two halves swapped where the parallel recursor's remaining depth reaches 0; every harness manager forced the split depth to MAX, so that point was never reached). Added c02_deep / c04_deep / c09_deep (13..16 variables, 2..8 workers, AUTOMATIC split depth, dense operands) and random split depths 0/1/2/MAX in c04_rand / c09_rand and the MTBDD/TDD monitors.",
+ "C13-r2m1": "round 2c, first run: caught by C12 only (reorder() no longer advances the epoch that invalidates SatCountCache: counts of recycled node slots steer pick_cube_uniform; never a non-model, only the distribution is wrong). c13_uniform now keeps ONE cache object across set_var_order without gc, another handle, gc + new nodes and a second reordering, with the chi-square test after each phase.",
+ "C15-r2m2": "round 2c, first run: missed (binary importer decodes the escape of byte 0x0d wrongly: only node references beyond 1536 produce that byte). Added c15_large: dense random functions over 12..15 variables (thousands of nodes, 1..3 roots), binary and ASCII, re-imported into the exporting manager (identical handles) and a fresh one (equal tables + audit).",
+ "C12-r2m2": "round 2c, first run: missed (SatCountCache keeps the old variable count when the epoch and `vars` change in the same call: a, gc, exactly one count with b, a again). c12_cache changed `vars` only between groups of queries, so a second query with b always repaired the field. Added a scripted sub-history (count with a on several handles, gc or reordering, ONE count with b, all handles with a) and per-query changes of `vars`.",
+ "C16-r2m2": "round 2c, first run: missed (pointer-based manager leaves variables of a partly rejected add_named_vars batch without level entries; C16 ran on the index-based manager only). C16 now runs c16_mgr on the `pointer` variant as well; C03 and C20 additionally run c03_hist there and C07 c07_stress.",
+ "C20-r2m1": "round 2c, first run: missed (pointer-based manager: add_named_vars no longer clears the apply cache; shows for ZBDDs whose cached result embeds the tautology chain). C06's hostile generator repeated operations across add_vars only; it now picks add_vars or add_named_vars at random, and c06_diff already ran on the pointer variant under C06 and C20.",
+ "C20-r2m2": "round 2c, first run: missed (parallel update_levels skips the wrong level when an EMPTY level moves; needs >= 65536 nodes, >= 2 workers and an unused variable). c08_large now has two variables no function depends on, which the reversal rounds move past populated levels, and runs on both node stores under C20.",
 }
 rows = []
 for d in sorted(glob.glob(f"{ROOT}/seeded/C*-*m*")):
